@@ -6,9 +6,6 @@ import (
 	"golang.org/x/tools/go/ssa"
 )
 
-func (v *FnVC) assumeTypeInv(t Term, env *Env, depth int)               {}
-func (v *FnVC) assumeTypeInvG(t Term, env *Env, depth int, g string)    {}
-func (v *FnVC) checkTypeInv(t Term, env *Env, what string, p token.Pos) {}
 func (v *FnVC) checkFieldGuards(l *Loc, val Term, p token.Pos)          {}
 func (v *FnVC) checkMapGuards(i *ssa.MapUpdate, m, k Term)              {}
 
